@@ -51,6 +51,30 @@ pub type MemLog = Rc<RefCell<Vec<String>>>;
 pub struct RecMem {
     pub inner: SimpleGseMemory,
     pub log: MemLog,
+    /// fault injection (C08 "all points at which a memory operation behind the trait can fail"): the next
+    /// call of the named trait method fails in a way the trait allows, without touching the inner memory.
+    /// variant 0: the error the trait documents for that method; variant 1: MemoryCorrupted.
+    pub arm: Option<(&'static str, u8)>,
+    /// buffers the failing memory swallowed (save_frag / provision answered MemoryCorrupted): they stay the
+    /// memory's, in a place of their own
+    pub stash: Vec<Box<[u8]>>,
+}
+
+impl RecMem {
+    fn hit(&mut self, op: &str) -> Option<u8> {
+        match self.arm {
+            Some((o, v)) if o == op => {
+                self.arm = None;
+                Some(v)
+            }
+            _ => None,
+        }
+    }
+    fn log_inj(&self, op: &str, id: usize, tag: usize, res: &str, back: usize) {
+        self.log.borrow_mut().push(
+            Obj::new().str("op", op).num("id", id).num("tag", tag).str("res", res).num("back", back).boolean("inj", true).end(),
+        );
+    }
 }
 
 fn mem_err(e: &DecapMemoryError) -> (String, Option<usize>) {
@@ -76,10 +100,19 @@ pub fn jctxfields(c: &DecapContext) -> Obj {
 
 impl GseDecapMemory for RecMem {
     fn new(a: usize, b: usize, c: usize, d: usize) -> Self {
-        RecMem { inner: SimpleGseMemory::new(a, b, c, d), log: Rc::new(RefCell::new(vec![])) }
+        RecMem { inner: SimpleGseMemory::new(a, b, c, d), log: Rc::new(RefCell::new(vec![])), arm: None, stash: vec![] }
     }
     fn provision_storage(&mut self, storage: Box<[u8]>) -> Result<(), DecapMemoryError> {
         let tag = storage.len();
+        if let Some(v) = self.hit("provision") {
+            if v == 0 {
+                self.log_inj("provision", 0, tag, "overflow", tag);
+                return Err(DecapMemoryError::StorageOverflow(storage));
+            }
+            self.log_inj("provision", 0, tag, "corrupted", 0);
+            self.stash.push(storage);
+            return Err(DecapMemoryError::MemoryCorrupted);
+        }
         let r = self.inner.provision_storage(storage);
         let (res, back) = match &r {
             Ok(()) => ("ok".to_string(), None),
@@ -96,6 +129,10 @@ impl GseDecapMemory for RecMem {
         r
     }
     fn new_pdu(&mut self) -> Result<Box<[u8]>, DecapMemoryError> {
+        if let Some(v) = self.hit("new_pdu") {
+            self.log_inj("new_pdu", 0, 0, if v == 0 { "underflow" } else { "corrupted" }, 0);
+            return Err(if v == 0 { DecapMemoryError::StorageUnderflow } else { DecapMemoryError::MemoryCorrupted });
+        }
         let r = self.inner.new_pdu();
         let (res, tag) = match &r {
             Ok(b) => ("ok".to_string(), b.len()),
@@ -106,6 +143,10 @@ impl GseDecapMemory for RecMem {
     }
     fn new_frag(&mut self, context: DecapContext) -> Result<(DecapContext, Box<[u8]>), DecapMemoryError> {
         let id = context.frag_id as usize;
+        if let Some(v) = self.hit("new_frag") {
+            self.log_inj("new_frag", id, 0, if v == 0 { "underflow" } else { "corrupted" }, 0);
+            return Err(if v == 0 { DecapMemoryError::StorageUnderflow } else { DecapMemoryError::MemoryCorrupted });
+        }
         let r = self.inner.new_frag(context);
         let (res, tag) = match &r {
             Ok((_, b)) => ("ok".to_string(), b.len()),
@@ -117,6 +158,10 @@ impl GseDecapMemory for RecMem {
         r
     }
     fn take_frag(&mut self, frag_id: u8) -> Result<(DecapContext, Box<[u8]>), DecapMemoryError> {
+        if let Some(v) = self.hit("take_frag") {
+            self.log_inj("take_frag", frag_id as usize, 0, if v == 0 { "undefined" } else { "corrupted" }, 0);
+            return Err(if v == 0 { DecapMemoryError::UndefinedId } else { DecapMemoryError::MemoryCorrupted });
+        }
         let r = self.inner.take_frag(frag_id);
         let (res, tag) = match &r {
             Ok((_, b)) => ("ok".to_string(), b.len()),
@@ -130,6 +175,11 @@ impl GseDecapMemory for RecMem {
     fn save_frag(&mut self, context: (DecapContext, Box<[u8]>)) -> Result<(), DecapMemoryError> {
         let id = context.0.frag_id as usize;
         let tag = context.1.len();
+        if self.hit("save_frag").is_some() {
+            self.log_inj("save_frag", id, tag, "corrupted", 0);
+            self.stash.push(context.1);
+            return Err(DecapMemoryError::MemoryCorrupted);
+        }
         let r = self.inner.save_frag(context);
         let res = match &r {
             Ok(()) => "ok".to_string(),
@@ -267,7 +317,13 @@ impl<C: CrcCalculator, M: MandatoryHeaderExtensionManager> Rx<C, M> {
     }
     pub fn jmem(&self) -> String {
         if self.project {
-            project_mem(&self.d.memory.inner, &self.ids)
+            let m = project_mem(&self.d.memory.inner, &self.ids);
+            if self.d.memory.stash.is_empty() {
+                m
+            } else {
+                let tags: Vec<usize> = self.d.memory.stash.iter().map(|b| b.len()).collect();
+                format!("{},\"stash\":{}}}", &m[..m.len() - 1], jnums(&tags))
+            }
         } else {
             Obj::new().boolean("ok", false).raw("free", "[]").raw("ctxs", "[]").end()
         }
@@ -324,6 +380,14 @@ impl<C: CrcCalculator, M: MandatoryHeaderExtensionManager> Rx<C, M> {
     pub fn ev_reset(&mut self, out: &mut Out) {
         self.d.reset_last_label();
         out.emit(&Obj::new().str("ev", "rx_reset").end());
+    }
+
+    /// decap with one injected memory failure: the next call of trait method `op` fails (see RecMem::arm)
+    pub fn ev_decap_armed(&mut self, out: &mut Out, bytes: &[u8], op: &'static str, variant: u8) -> RxOut {
+        self.d.memory.arm = Some((op, variant));
+        let o = self.ev_decap(out, bytes, vec![]);
+        self.d.memory.arm = None;
+        o
     }
 
     /// decap on `bytes`; `extra` lets a driver attach facts (e.g. the twin's outcome).
